@@ -223,9 +223,12 @@ func c13(p Params) func() {
 		}
 		// repeated losses: the session that survived the first loss loses its new connection too
 		for l := 2; l <= losses && reconnects; l++ {
-			vnet.DialHook = nil
+			// the same availability window again: the first `down` attempts after this loss are refused, which
+			// is within the budget of one round (otherwise the session would not have survived the first loss)
 			rec.OnStage = nil
 			delete(rec.Veto, "postdial_redial")
+			base := vnet.DialCount(addr)
+			vnet.DialHook = func(a string, attempt int) bool { return attempt-base <= down }
 			redialsBefore := rec.Count["postdial_redial"]
 			sc := serverConn()
 			if sc == nil {
